@@ -22,7 +22,7 @@ from vp.pbt import Outcome, Stats, drive, enumerate_cases
 PROPERTY = "C13"
 LEVEL = "exploration"
 SHARDS = {"quick": 16, "thorough": 16}
-RULE = ("call alphabet (about 300 calls, built deterministically from the configuration and VERIF_SEED) covering every cached entry point and "
+RULE = ("call alphabet (about 500 calls, built deterministically from the configuration and VERIF_SEED) covering every cached entry point and "
         "every flag / configuration value: Sid(str / sid= / fields= / query= / path= with each config, default and a bogus one), sid.path(config) "
         "positional / keyword / default, unfold_search with its four flag values positional / keyword / mixed / default / only-the-set-flag-by-keyword, match, find on a fixed "
         "(non-alphabetical) list, both trees and FindInAll (fully and partially consumed generators kept alive; fresh and long-lived Finder instances; "
